@@ -823,6 +823,9 @@ fn merge_inputs() -> Vec<Vec<(String, Vec<(u32, u32, f32)>)>> {
         vec![(s("chrX"), vec![(0, 3, 1.0), (49998, 50003, 2.0), (100000, 100001, 0.5)]), (s("chrY"), vec![(5, 10, 1.0)])],
         vec![(s("chrX"), vec![(0, 2, 1.0), (2, 4, -1.0), (50000, 50010, 0.0)]), (s("chrZ"), vec![(0, 4, 2.5)])],
         vec![(s("chrX"), vec![(1, 50001, 0.25)])],
+        // values that are not sums of powers of two: `sum + adjust > threshold` and
+        // `sum > threshold - adjust` then round differently
+        vec![(s("chrX"), vec![(0, 10, 0.1), (20, 30, 0.3), (49995, 50005, 0.7)]), (s("chrY"), vec![(5, 10, 0.2)])],
     ]
 }
 
@@ -845,6 +848,15 @@ pub fn merge_tool_cases(quick: bool) -> Vec<MergeTool> {
                         v.push(MergeTool { inputs: inputs.clone(), clip, adjust, threshold, output: s(o), output_type: ot.map(s), ucsc, input_style, many: 0 });
                     }
                 }
+            }
+        }
+    }
+    // sums, adjustments and thresholds that are not exact in single precision (file 3 twice / three
+    // times: sums 0.2, 0.6, 1.4, 0.4 / 0.3, 0.9, 2.1, 0.6), through the attached -b<file> spelling too
+    for (k, inputs) in [vec![3usize, 3], vec![3, 3, 3], vec![0, 3]].into_iter().enumerate() {
+        for (adjust, threshold) in [(0.8f32, 1.0f32), (0.7, 0.9), (0.1, 0.3), (-0.1, 0.1), (0.4, 1.0), (0.1, 0.7)] {
+            for (o, input_style) in [("out.bedGraph", 0u8), ("out.bw", 4)] {
+                v.push(MergeTool { inputs: inputs.clone(), clip: if k == 1 { Some(1.9) } else { None }, adjust: Some(adjust), threshold: Some(threshold), output: s(o), output_type: None, ucsc: false, input_style, many: 0 });
             }
         }
     }
@@ -913,6 +925,8 @@ pub fn c15_tool(t: &MergeTool, out: &mut Outcome) {
         std::fs::write(dir.join(format!("in{}.bw", k)), encode(&spec).bytes).unwrap();
         match t.input_style {
             0 => argv.extend([s("-b"), format!("in{}.bw", k)]),
+            // the attached spelling of the same option
+            4 => argv.push(format!("-bin{}.bw", k)),
             2 => argv.push(format!("in{}.bw", k)),
             _ => {}
         }
@@ -927,14 +941,27 @@ pub fn c15_tool(t: &MergeTool, out: &mut Outcome) {
         }
     }
     let mut tags = vec![format!("output_{}", t.output.to_lowercase().replace('.', "_")), format!("input_style_{}", t.input_style)];
+    // (style 4 gives the option values as separate words)
     if let Some(c) = t.clip {
-        argv.push(if t.ucsc { format!("-clip={}", c) } else { format!("--clip={}", c) });
+        if t.input_style == 4 && c >= 0.0 {
+            argv.extend([s("--clip"), c.to_string()]);
+        } else {
+            argv.push(if t.ucsc { format!("-clip={}", c) } else { format!("--clip={}", c) });
+        }
     }
     if let Some(a) = t.adjust {
-        argv.push(if t.ucsc { format!("-adjust={}", a) } else { format!("--adjust={}", a) });
+        if t.input_style == 4 && a >= 0.0 {
+            argv.extend([s("--adjust"), a.to_string()]);
+        } else {
+            argv.push(if t.ucsc { format!("-adjust={}", a) } else { format!("--adjust={}", a) });
+        }
     }
     if let Some(th) = t.threshold {
-        argv.push(if t.ucsc { format!("-threshold={}", th) } else { format!("--threshold={}", th) });
+        if t.input_style == 4 && th >= 0.0 {
+            argv.extend([s("--threshold"), th.to_string()]);
+        } else {
+            argv.push(if t.ucsc { format!("-threshold={}", th) } else { format!("--threshold={}", th) });
+        }
     }
     if let Some(ot) = &t.output_type {
         argv.extend([s("--output-type"), ot.clone()]);
@@ -1393,14 +1420,19 @@ pub fn c19_tool_wide(extra: usize, width: usize, supplied: Option<(String, usize
     let dir = wd.path();
     // columns are separated by TAB only: for some column counts one value has blanks inside and one
     // column is empty (the number of columns, hence of declared fields, is unchanged)
-    let rest: Vec<String> = (0..extra)
+    // (None: a column that is really empty; for other counts the FIRST extra column is empty or a blank)
+    let rest: Vec<Option<String>> = (0..extra)
         .map(|i| {
             if extra % 7 == 3 && i == 0 {
-                "putative zinc finger".to_string()
+                Some("putative zinc finger".to_string())
             } else if extra % 7 == 5 && i == 1 {
-                String::new()
+                None
+            } else if extra % 7 == 6 && i == 0 && extra > 1 {
+                None
+            } else if extra % 7 == 2 && i == 0 && extra > 2 {
+                Some(" ".to_string())
             } else {
-                format!("v{}{}", i, "w".repeat(width.saturating_sub(3)))
+                Some(format!("v{}{}", i, "w".repeat(width.saturating_sub(3))))
             }
         })
         .collect();
@@ -1408,7 +1440,11 @@ pub fn c19_tool_wide(extra: usize, width: usize, supplied: Option<(String, usize
     for (i, (c, a, b)) in [("chr1", 1u32, 9u32), ("chr1", 5, 20), ("chr2", 0, 4)].iter().enumerate() {
         bed.push_str(&format!("{}\t{}\t{}", c, a, b));
         for r in &rest {
-            bed.push_str(&format!("\t{}{}", r, i));
+            match r {
+                None => bed.push('\t'),
+                Some(x) if x == " " => bed.push_str("\t "),
+                Some(x) => bed.push_str(&format!("\t{}{}", x, i)),
+            }
         }
         bed.push('\n');
     }
@@ -1457,7 +1493,7 @@ pub fn c19_tool_wide(extra: usize, width: usize, supplied: Option<(String, usize
                     if asql != *text {
                         out.fail("autosql_not_verbatim", &tags, format!("stored {:?}, supplied {:?}", asql, text));
                     }
-                    if d.field_count as usize != *n {
+                    if *n != usize::MAX && d.field_count as usize != *n {
                         out.fail("field_count_mismatch", &tags, format!("header fieldCount {} but the supplied schema declares {}", d.field_count, n));
                     }
                 }
